@@ -635,6 +635,118 @@ def oracle_cfg(gi, p, sentences):
 
 
 # ====================================================================== the check
+def literal_streams(rep, gi, rng, count):
+    """Oracle-only streams on the real objects, outside the integer-coded DSL:
+    (a) pregroup parsing with the literal type names of the documentation ('s', 'n', ...), every
+        kind of target including the empty type and multi-wire targets, through eager_parse and
+        brute_force: whatever is returned must satisfy the parse oracle for the REQUESTED target;
+    (b) Curry boxes on their own (n_wires from 0 to len(dom), both sides, composite and nested
+        slash types): the box has the curried type and its rigid image the image of that type."""
+    from discopy import rigid, biclosed
+    from discopy.grammar import pregroup
+    s, n, p = rigid.Ty('s'), rigid.Ty('n'), rigid.Ty('p')
+    vocab_types = [n, n.r @ s @ n.l, n.r @ s, s @ n.l, n @ n.l, n.r @ n, s, p, p.r @ s, n.r @ n.r @ s @ n.l,
+                   s.r @ s, n.l.l @ n.l, rigid.Ty()]
+    targets = [s, rigid.Ty(), n, s @ s, n @ s, p, n.r @ s]
+    bad = 0
+
+    def fail(what, payload):
+        nonlocal bad
+        bad += 1
+        rep.count("oracle:literal:FAIL")
+        if bad <= 4:
+            rep.violation(what, payload)
+    for k in range(count):
+        words = [pregroup.Word("w%d" % i, rng.choice(vocab_types)) for i in range(rng.randint(0, 4))]
+        if k % 3 == 0:
+            words = [pregroup.Word('Alice', n), pregroup.Word('loves', n.r @ s @ n.l), pregroup.Word('Bob', n)]
+        target = targets[k % len(targets)] if k < 4 * len(targets) else rng.choice(targets)
+        rep.count("stream:literal-pregroup")
+        for how in ("eager", "brute"):
+            try:
+                if how == "eager":
+                    d = common.with_timeout(20.0, lambda: pregroup.eager_parse(*words, target=target))
+                    given = words
+                else:
+                    if not words or k % 4:
+                        continue
+                    # brute force enumerates sentences without end when none parses: a short budget
+                    gen = pregroup.brute_force(*words, target=target)
+                    d = common.with_timeout(0.5, lambda: next(iter(_bounded(gen, 300)), None))
+                    given = None
+                    if d is None:
+                        continue
+            except NotImplementedError:
+                rep.count("literal:%s:no-parse" % how)
+                continue
+            except Exception as exc:   # noqa
+                if type(exc).__name__ in ("CaseTimeout", "StopIteration"):
+                    continue
+                fail("pregroup %s parse raised %s: %s" % (how, type(exc).__name__, exc),
+                     {"words": [repr(w) for w in words], "target": repr(target)})
+                continue
+            why = oracle_parse(gi, d, given, target, vocab=words)
+            if why:
+                fail("pregroup %s parse for target %r: %s" % (how, target, why),
+                     {"words": [repr(w) for w in words], "target": repr(target), "returned": repr(d)[:600],
+                      "replay": "from discopy import *; from discopy.grammar.pregroup import *; "
+                                "eager_parse(%s, target=%r)" % (", ".join(repr(w) for w in words), target)})
+            else:
+                rep.count("oracle:literal-parse:pass")
+
+    x, y, z = biclosed.Ty('x'), biclosed.Ty('y'), biclosed.Ty('z')
+
+    def bty(depth):
+        if depth == 0 or rng.random() < 0.4:
+            return rng.choice([x, y, z])
+        l, r = bty(depth - 1), bty(depth - 1)
+        return (l << r) if rng.random() < 0.5 else (l >> r)
+
+    def key(t):
+        return [repr(o) for o in t.objects]
+    for k in range(count):
+        dom_parts = [bty(2) for _ in range(rng.randint(1, 4))]
+        dom = biclosed.Ty().tensor(*dom_parts) if dom_parts else biclosed.Ty()
+        cod = bty(2)
+        f = biclosed.Box('f', dom, cod)
+        m = len(dom)
+        n_wires, left = rng.randint(0, m), bool(rng.randint(0, 1))
+        rep.count("stream:literal-curry")
+        try:
+            c = biclosed.Curry(f, n_wires, left)
+            img = common.with_timeout(20.0, biclosed.biclosed2rigid, c)
+        except Exception as exc:   # noqa
+            fail("Curry(f, %d, left=%s) or its rigid image raised %s: %s" % (n_wires, left, type(exc).__name__, exc),
+                 {"dom": repr(dom), "cod": repr(cod)})
+            continue
+        if left:
+            want_dom, moved = key(dom[n_wires:]), dom[:n_wires]
+            want_cod = ["Under(%r, %r)" % (moved, cod)]
+        else:
+            cut = m - n_wires if n_wires else m      # n_wires == 0 curries nothing
+            want_dom, moved = key(dom[:cut]), dom[cut:]
+            want_cod = ["Over(%r, %r)" % (cod, moved)]
+        why = None
+        if key(c.dom) != want_dom or key(c.cod) != want_cod:
+            why = "Curry box has type %r -> %r, expected %r -> %r" % (key(c.dom), key(c.cod), want_dom, want_cod)
+        else:
+            why = oracle_image(gi, c, img)
+        if why:
+            fail("currying %d wire(s) on the %s: %s" % (n_wires, "left" if left else "right", why),
+                 {"dom": repr(dom), "cod": repr(cod), "n_wires": n_wires, "left": left,
+                  "replay": "from discopy.biclosed import *; c = Curry(Box('f', %r, %r), %d, left=%s); "
+                            "c.dom, c.cod, biclosed2rigid(c).dom" % (dom, cod, n_wires, left)})
+        else:
+            rep.count("oracle:literal-curry:pass")
+
+
+def _bounded(gen, limit):
+    for k, x in enumerate(gen):
+        yield x
+        if k >= limit:
+            return
+
+
 def run(tier, seed):
     import grammar_impl as gi
     from discopy import biclosed
@@ -755,6 +867,7 @@ def run(tier, seed):
         if bad:
             rep.violation(bad, {"program": q, "aux": aux, "impl": a, "model": b,
                                 "replay": snippet(p, aux)})
+    literal_streams(rep, gi, rng, 120 if tier == "quick" else 1500)
     base.settle(rep, "C18", proof_ok, "C18")
     return rep.finish(
         rule="eager_parse: hand corpus, every sentence of <= 3 words over 10 word types, sentences made by "
